@@ -207,12 +207,14 @@ static inline void fwdConfig(const int relaxed)
 static inline void symbolicFlags(Http::StateFlags &f)
 {
     f.keepalive = vf_bool("keepalive");
+#ifdef VF_THOROUGH
     f.only_if_cached = vf_bool("only_if_cached");
+    f.front_end_https = vf_range(0, 2, "front_end_https");
+#endif
     f.peering = vf_bool("peering");
     f.tunneling = vf_bool("tunneling");
     f.toOrigin = vf_bool("toOrigin");
     f.chunked_request = vf_bool("chunked_request");
-    f.front_end_https = vf_range(0, 2, "front_end_https");
     vf_assume((!f.tunneling) | (f.peering & f.toOrigin));
     vf_assume(f.peering | f.toOrigin);
 }
